@@ -22,6 +22,8 @@ Enc == /\ IsEv("enc") /\ UNCHANGED rej
           IN /\ Ev.n = n /\ Ev.len = n /\ Len(Ev.bytes) = n
              /\ \A i \in 1..n : Ev.bytes[i] % CareMod(k, n, i) = Byte(k, n, Ev.v, i) % CareMod(k, n, i)
              /\ Ev.dok /\ Ev.dn = n /\ Ev.dv = Ev.v
+             /\ Ev.clean                                   \* nothing is written beyond the n bytes
+             /\ Ev.exact                                   \* a destination of exactly Len(v) bytes suffices
 
 \* Decode(arbitrary bytes) -> v, n, ok
 Dec == /\ IsEv("dec") /\ UNCHANGED rej
